@@ -20,6 +20,7 @@ import (
 	"encoding/json"
 	"errors"
 	"fmt"
+	"os"
 	"reflect"
 	"runtime"
 	"strings"
@@ -526,6 +527,8 @@ var namePools = map[string][]string{
 	"diversifier": {"diversifier"}, "txtype": {"sdk_multi_msg"}, "type": {"/ibc.applications.transfer.v1.MsgTransfer", "07-tendermint"},
 }
 
+var namePoolKeys = SortedKeys(namePools)
+
 var advStrings = []string{"", " ", "\t", "/", "a/b", "\x00", "ü", "channel--1", "channel-18446744073709551616", "channel-99999999999999999999", "07-tendermint-18446744073709551616",
 	"a-99999999999999999999", "connection-", "-1", "+5", "0x10", "010", "1e9", "NaN", "null", "{", "[]", "../..", "ibc/", "ibc/zz", "ibc", strings.Repeat("a", 129), strings.Repeat("x/", 70)}
 
@@ -550,9 +553,9 @@ func (f *filler) str(name string) string {
 		}
 	}
 	ln := strings.ToLower(name)
-	for key, pool := range namePools {
+	for _, key := range namePoolKeys { // sorted: map iteration order must not influence the run
 		if strings.Contains(ln, key) {
-			return Pick(r, pool)
+			return Pick(r, namePools[key])
 		}
 	}
 	return r.Str(asciiAlpha, 1+r.Intn(20))
@@ -729,6 +732,8 @@ func panicClass(e any) string {
 		return "slice-bounds"
 	case strings.Contains(s, "interface conversion"):
 		return "type-assertion"
+	case strings.Contains(s, "after 10000-01-01") || strings.Contains(s, "before 0001-01-01"):
+		return "timestamp-out-of-range"
 	}
 	w := strings.Fields(s)
 	if len(w) > 6 {
@@ -754,11 +759,13 @@ func innermostIBCFrame() string {
 	for {
 		fr, more := frames.Next()
 		if i := strings.Index(fr.Function, "github.com/cosmos/ibc-go/v11/modules/"); i >= 0 {
+			// keep the last two path elements: "rate-limiting/types.(*MsgAddRateLimit).ValidateBasic"
 			fn := fr.Function[i+len("github.com/cosmos/ibc-go/v11/modules/"):]
-			if j := strings.LastIndex(fn, "/"); j >= 0 {
-				fn = fn[j+1:]
+			parts := strings.Split(fn, "/")
+			if len(parts) > 2 {
+				parts = parts[len(parts)-2:]
 			}
-			return fn
+			return strings.Join(parts, "/")
 		}
 		if !more {
 			return ""
@@ -787,6 +794,11 @@ func call(report func(reg.Violation), site string, input func() any, f func()) {
 	f()
 }
 
+func tmClientStateRaw(chainID string) *ibctm.ClientState {
+	return ibctm.NewClientState(chainID, ibctm.DefaultTrustLevel, time.Hour, 2*time.Hour, time.Minute,
+		clienttypes.NewHeight(1, 10), commitmenttypes.GetSDKSpecs(), []string{"upgrade", "upgradedIBCState"})
+}
+
 func newCodec() *codec.ProtoCodec {
 	ir := codectypes.NewInterfaceRegistry()
 	coretypes.RegisterInterfaces(ir)
@@ -812,11 +824,64 @@ func fuzzMonitor(r *Rng, n int, report func(reg.Violation)) {
 		_ = clienttypes.MsgCreateClient{Signer: validAddr}.ValidateBasic()
 	})
 	call(report, "ibctm.ClientState.Validate", func() any { return M{"chainId": "a-99999999999999999999"} }, func() {
-		cs := ibctm.NewClientState("a-99999999999999999999", ibctm.DefaultTrustLevel, time.Hour, 2*time.Hour, time.Minute,
-			clienttypes.NewHeight(1, 10), commitmenttypes.GetSDKSpecs(), []string{"upgrade", "upgradedIBCState"})
-		_ = cs.Validate()
+		_ = tmClientStateRaw("a-99999999999999999999").Validate()
 	})
-	accepted := map[string]int{}
+	call(report, "solomachine.Misbehaviour.ValidateBasic", func() any { return "solomachine.Misbehaviour{Sequence: 1} (signature_one / signature_two absent)" }, func() {
+		_ = solomachine.Misbehaviour{Sequence: 1}.ValidateBasic()
+	})
+	call(report, "solomachine.ClientState.UnpackInterfaces", func() any {
+		return "MsgCreateClient carrying a solomachine ClientState without consensus_state, decoded with interface unpacking"
+	}, func() {
+		a, _ := codectypes.NewAnyWithValue(&solomachine.ClientState{Sequence: 1})
+		bz, err := cdc.Marshal(&clienttypes.MsgCreateClient{ClientState: a, ConsensusState: a, Signer: validAddr})
+		if err == nil {
+			_ = cdc.Unmarshal(bz, &clienttypes.MsgCreateClient{})
+		}
+	})
+	call(report, "ibctm.Misbehaviour.ValidateBasic", func() any { return "tendermint Misbehaviour whose headers carry no signed_header" }, func() {
+		h := func() *ibctm.Header {
+			return &ibctm.Header{TrustedHeight: clienttypes.NewHeight(1, 5), TrustedValidators: tmHeader("a-1", 12, clienttypes.NewHeight(1, 5), 1).TrustedValidators}
+		}
+		_ = ibctm.Misbehaviour{ClientId: "07-tendermint-0", Header1: h(), Header2: h()}.ValidateBasic()
+	})
+	call(report, "ibctm.Misbehaviour.ValidateBasic", func() any {
+		return "valid tendermint Misbehaviour with commit.signatures[0].timestamp.seconds = 2^40 (year > 9999)"
+	}, func() {
+		h1, h2 := tmHeader("a-1", 12, clienttypes.NewHeight(1, 10), 1), tmHeader("a-1", 12, clienttypes.NewHeight(1, 10), 2)
+		h2.Commit.Signatures[0].Timestamp = time.Unix(1<<40, 0)
+		_ = ibctm.NewMisbehaviour("07-tendermint-0", h1, h2).ValidateBasic()
+	})
+	call(report, "ratelimittypes.MsgAddRateLimit.ValidateBasic", func() any { return "MsgAddRateLimit with max_percent_send / max_percent_recv absent (nil math.Int)" }, func() {
+		_ = (&ratelimittypes.MsgAddRateLimit{Signer: validAddr, Denom: "uatom", ChannelOrClientId: "channel-0", DurationHours: 1}).ValidateBasic()
+	})
+	call(report, "ratelimittypes.MsgUpdateRateLimit.ValidateBasic", func() any { return "MsgUpdateRateLimit with max_percent_send / max_percent_recv absent (nil math.Int)" }, func() {
+		_ = (&ratelimittypes.MsgUpdateRateLimit{Signer: validAddr, Denom: "uatom", ChannelOrClientId: "channel-0", DurationHours: 1}).ValidateBasic()
+	})
+	call(report, "transfertypes.TransferAuthorization.ValidateBasic", func() any {
+		return "TransferAuthorization with a spend_limit coin whose amount is absent (nil math.Int)"
+	}, func() {
+		_ = (&transfertypes.TransferAuthorization{Allocations: []transfertypes.Allocation{{SourcePort: "transfer", SourceChannel: "channel-0", SpendLimit: sdk.Coins{{Denom: "uatom"}}}}}).ValidateBasic()
+	})
+	seeds := seedCorpus()
+	for i, mk := range seeds { // a pristine seed must validate, otherwise the corpus is stale
+		if v, ok := mk().(validator); ok {
+			if err := v.ValidateBasic(); err != nil {
+				fmt.Fprintf(os.Stderr, "harness: seed %d (%s) no longer validates: %v\n", i, typeName(v), err)
+			}
+		} else if v, ok := mk().(validater); ok {
+			if err := v.Validate(); err != nil {
+				fmt.Fprintf(os.Stderr, "harness: seed %d (%s) no longer validates: %v\n", i, typeName(v), err)
+			}
+		}
+	}
+	accepted, tried := map[string]int{}, map[string]int{}
+	defer func() {
+		if os.Getenv("VERIF_FUZZ_STATS") != "" {
+			for _, k := range SortedKeys(tried) {
+				fmt.Fprintf(os.Stderr, "%-70s tried=%d accepted=%d\n", k, tried[k], accepted[k])
+			}
+		}
+	}()
 	for i := 0; i < n; i++ {
 		for round := 0; round < 3; round++ {
 			f := &filler{r: r, adv: Pick(r, []float64{0, 0.02, 0.08, 0.3}), cdc: cdc}
@@ -825,6 +890,7 @@ func fuzzMonitor(r *Rng, n int, report func(reg.Violation)) {
 			msg := mk()
 			f.fill(reflect.ValueOf(msg).Elem(), "")
 			site := typeName(msg) + ".ValidateBasic"
+			tried[site]++
 			call(report, site, func() any { return describe(msg) }, func() {
 				if msg.(validator).ValidateBasic() == nil {
 					accepted[site]++
@@ -853,6 +919,44 @@ func fuzzMonitor(r *Rng, n int, report func(reg.Violation)) {
 			if vv, ok := vt.(validater); ok {
 				f.fill(reflect.ValueOf(vt).Elem(), "")
 				call(report, typeName(vt)+".Validate", func() any { return describe(vt) }, func() { _ = vv.Validate() })
+			}
+		}
+
+		// valid seeds with one or two fields replaced adversarially (any depth), direct and through the wire
+		for round := 0; round < 3; round++ {
+			seed := Pick(r, seeds)()
+			mutateFields(r, cdc, seed, Pick(r, []int{0, 1, 1, 1, 2, 3}))
+			site := typeName(seed) + ".ValidateBasic"
+			tried["seed:"+site]++
+			call(report, site, func() any { return describe(seed) }, func() {
+				switch v := seed.(type) {
+				case validator:
+					if v.ValidateBasic() == nil {
+						accepted["seed:"+site]++
+					}
+				case validater:
+					_ = v.Validate()
+				}
+			})
+			if pm, ok := seed.(proto.Message); ok {
+				var bz []byte
+				func() {
+					defer func() { _ = recover() }()
+					bz, _ = cdc.Marshal(pm)
+				}()
+				if bz != nil {
+					if r.Chance(0.6) {
+						bz = mutate(r, bz)
+					}
+					back := reflect.New(reflect.TypeOf(seed).Elem()).Interface()
+					call(report, typeName(seed)+".Unmarshal+ValidateBasic", func() any { return M{"bytes": Hex(bz)} }, func() {
+						if err := cdc.Unmarshal(bz, back.(proto.Message)); err == nil {
+							if v, ok := back.(validator); ok {
+								_ = v.ValidateBasic()
+							}
+						}
+					})
+				}
 			}
 		}
 
